@@ -34,12 +34,27 @@ void h_u_genmerge_b(void)
 #elif GM_SCEN == 4    /* nested objects where case-insensitive and byte order of the keys disagree ("a" < "B" only when case is folded) */
     from = obj(0); { cJSON *n = obj('k'); append(n, num('a', v[0])); append(n, num('B', v[1])); append(from, n); }
     to = obj(0); { cJSON *n = obj('k'); append(n, num('B', v[1])); append(to, n); }
+#elif GM_SCEN == 5    /* arrays are values, not objects: generation must neither reorder them nor sort them (scalar -> array of three) */
+    from = num(0, v[0]);
+    to = mknode(cJSON_Array); append(to, num(0, 10)); append(to, num(0, 20)); append(to, num(0, 30));
+#define GM_TO_ARRAY to
+#elif GM_SCEN == 6    /* array-valued member that differs (two elements -> three), below the top level */
+    from = obj(0); { cJSON *a = mknode(cJSON_Array); a->string = mkkey('a'); append(a, num(0, 10)); append(a, num(0, 20)); append(from, a); }
+    to = obj(0); { cJSON *a = mknode(cJSON_Array); a->string = mkkey('a'); append(a, num(0, 10)); append(a, num(0, 20)); append(a, num(0, 30)); append(to, a); }
+#define GM_TO_ARRAY (to->child)
 #else                 /* nested object replaced by a number, and a new nested object */
     from = obj(0); { cJSON *n = obj('k'); append(n, num('a', v[0])); append(from, n); }
     to = obj(0); append(to, num('k', v[1])); { cJSON *n = obj('m'); append(n, num('x', v[2])); append(to, n); }
 #endif
     patch = cJSONUtils_GenerateMergePatchCaseSensitive(from, to);
     __CPROVER_assert(wf(from) && wf(to), "C18 C19 generation leaves both inputs well-formed");
+#ifdef GM_TO_ARRAY
+    {   /* the target's array still holds 10, 20, 30 in this order (generation must not change the VALUE of its inputs; arrays are ordered) */
+        const cJSON *e = GM_TO_ARRAY->child;
+        __CPROVER_assert(e != NULL && e->valueint == 10 && e->next != NULL && e->next->valueint == 20 && e->next->next != NULL && e->next->next->valueint == 30 && e->next->next->next == NULL,
+            "C18 generation leaves the array elements of its inputs in order");
+    }
+#endif
     res = (patch != NULL) ? cJSONUtils_MergePatchCaseSensitive(from, patch) : from;
     __CPROVER_assert(res != NULL, "C18 the generated merge patch applies");
     __CPROVER_assert(cJSON_Compare(res, to, 1), "C18 applying the generated merge patch to `from` yields `to` (NULL patch = no change), at every nesting level");
